@@ -723,6 +723,51 @@ def _nonneg(expr, R, f, depth=0):
     return False
 
 
+
+def r6_divisions_cannot_raise(ctx):
+    """Each feature is NaN or finite - never an exception: a quotient whose
+    denominator can be zero for a fitted curve (a count of samples, a sum of
+    counts) is computed on numpy numbers, where 0/0 is NaN; on Python
+    integers (`len(...)`, `int(...)`) the same quotient raises
+    ZeroDivisionError.  Accepted: a denominator that is not purely built
+    from len()/int() values, or a guard that excludes zero."""
+    from ..symres import Resolver
+    m, meths, feats = _feats(ctx)
+    n = 0
+
+    def pyint(e):
+        if isinstance(e, ast.Call) and (call_name(e) or "") in (
+                "len", "int"):
+            return True
+        if isinstance(e, ast.BinOp) and isinstance(
+                e.op, (ast.Add, ast.Sub, ast.Mult)):
+            return pyint(e.left) and pyint(e.right)
+        return False
+    for name, f in sorted(feats.items()):
+        R = Resolver(f)
+        for d in walk_no_nested(f, False):
+            if not (isinstance(d, ast.BinOp) and isinstance(
+                    d.op, (ast.Div, ast.FloorDiv, ast.Mod))):
+                continue
+            n += 1
+            den = R.resolve(d.right)
+            if not pyint(den):
+                continue
+            dt = R.text(d.right)
+            conds = conditions_at(d)
+            guarded = any(a.pol and (R.text(a.node) in (
+                dt, f"{dt} > 0", f"{dt} != 0", f"{dt} >= 1")
+                or a.text in (norm(d.right), f"{norm(d.right)} > 0",
+                              f"{norm(d.right)} != 0")) for a in conds)
+            ctx.check(guarded, d, f"{name}: integer denominator excluded "
+                      "from being zero",
+                      f"feature {name} divides by `{dt[:50]}`, a Python "
+                      "integer that is zero for some fitted curve (no "
+                      "sample on either side): ZeroDivisionError instead of "
+                      "a NaN feature")
+    ctx.floor("quotients in feature methods", n, 5)
+
+
 RULES = [
     ("C17-R1", "every feature is invariant under a common scaling of force "
      "and fit (scale types)", r1_scale_invariance),
@@ -734,4 +779,7 @@ RULES = [
      "names", r4_order),
     ("C17-R5", "binary features bool/NaN; magnitude results non-negative; "
      "fraction shapes", r5_ranges),
+    ("C17-R6", "no feature quotient can raise ZeroDivisionError (counts are "
+     "numpy numbers or the zero case is excluded)",
+     r6_divisions_cannot_raise),
 ]
